@@ -238,14 +238,17 @@ Proof.
   assert (Hz : 1 <= Z.of_N sig) by lia. pose proof (pow10_ge1 e ltac:(lia)) as Hp.
   assert (HA : (1 <= IZR (Z.of_N sig))%R) by (apply IZR_le; exact Hz).
   assert (HB : (1 <= IZR (10 ^ e))%R) by (apply IZR_le; exact Hp).
-  pose proof (near_mul _ _ _ _ _ _ ltac:(lra) ltac:(lra) (near_RNE_int _ Hz) (near_RNE_int _ Hp)) as Hy.
+  assert (HA0 : (0 <= IZR (Z.of_N sig))%R) by lra. assert (HB0 : (0 <= IZR (10 ^ e))%R) by lra.
+  pose proof (near_mul _ _ _ _ _ _ HA0 HB0 (near_RNE_int _ Hz) (near_RNE_int _ Hp)) as Hy.
   assert (Hu : (0 <= u)%R) by apply bpow_ge_0.
   assert (HAB : (0 <= IZR (Z.of_N sig) * IZR (10 ^ e))%R) by (apply Rmult_le_pos; lra).
   pose proof (RNE_int_ge1 _ Hz) as H1. pose proof (RNE_int_ge1 _ Hp) as H2.
-  apply near_rnd in Hy; [|nra|exact HAB|].
-  - apply (near_weaken _ K3) in Hy; [exact Hy| |exact HAB].
-    unfold K3. rewrite u_val. lra.
-  - rewrite Rabs_pos_eq by nra. apply Rle_trans with (1 := bpow_m1022_le_1). nra.
+  assert (Hk : (0 <= u + u + u * u)%R) by nra.
+  assert (Hn : (bpow radix2 (-1022) <= Rabs (RNE64 (IZR (Z.of_N sig)) * RNE64 (IZR (10 ^ e))))%R).
+  { rewrite Rabs_pos_eq by nra. apply Rle_trans with (1 := bpow_m1022_le_1). nra. }
+  pose proof (near_rnd _ _ _ Hk HAB Hy Hn) as Hf.
+  apply (near_weaken _ K3) in Hf; [exact Hf| |exact HAB].
+  unfold K3. rewrite u_val. lra.
 Qed.
 
 (* band T-: two roundings + the final one; relative bound when v is safely normal *)
@@ -261,18 +264,20 @@ Proof.
   assert (HA : (1 <= IZR (Z.of_N sig))%R) by (apply IZR_le; exact Hz).
   assert (HB : (1 <= IZR (10 ^ (- e)))%R) by (apply IZR_le; exact Hp).
   assert (Hu : (0 <= u < 1)%R) by (rewrite u_val; lra).
-  pose proof (near_div _ _ _ _ _ _ ltac:(lra) ltac:(lra) ltac:(lra) Hu (near_RNE_int _ Hz) (near_RNE_int _ Hp)) as Hy.
+  assert (HA0 : (0 <= IZR (Z.of_N sig))%R) by lra. assert (HB0 : (0 < IZR (10 ^ (- e)))%R) by lra.
+  pose proof (near_div _ _ _ _ _ _ HA0 HB0 (proj1 Hu) Hu (near_RNE_int _ Hz) (near_RNE_int _ Hp)) as Hy.
   set (v := (IZR (Z.of_N sig) / IZR (10 ^ (- e)))%R) in *.
   assert (Hv : (0 <= v)%R) by (pose proof (bpow_gt_0 radix2 (-1021)); lra).
   assert (Hk : (0 <= (u + u) / (1 - u))%R) by (rewrite u_val; lra).
   pose proof (near_bounds _ _ _ Hy) as [Hylo _].
-  apply near_rnd in Hy; [|exact Hk|exact Hv|].
-  - apply (near_weaken _ K3) in Hy; [exact Hy| |exact Hv]. unfold K3. rewrite u_val. lra.
-  - assert (Hhalf : (/ 2 <= 1 - (u + u) / (1 - u))%R) by (rewrite u_val; lra).
+  assert (Hn : (bpow radix2 (-1022) <= Rabs (RNE64 (IZR (Z.of_N sig)) / RNE64 (IZR (10 ^ (- e)))))%R).
+  { assert (Hhalf : (/ 2 <= 1 - (u + u) / (1 - u))%R) by (rewrite u_val; lra).
     assert (Hb : (bpow radix2 (-1021) = 2 * bpow radix2 (-1022))%R).
     { change (-1021) with (1 + -1022). rewrite bpow_plus. reflexivity. }
     assert (Hy2 : (/ 2 * v <= (1 - (u + u) / (1 - u)) * v)%R) by (apply Rmult_le_compat_r; assumption).
-    rewrite Rabs_pos_eq; lra.
+    rewrite Rabs_pos_eq; lra. }
+  pose proof (near_rnd _ _ _ Hk Hv Hy Hn) as Hf.
+  apply (near_weaken _ K3) in Hf; [exact Hf| |exact Hv]. unfold K3. rewrite u_val. lra.
 Qed.
 
 (* band T-, no normality assumption: the last rounding may be subnormal, costing at most half the smallest subnormal *)
@@ -287,7 +292,8 @@ Proof.
   assert (HA : (1 <= IZR (Z.of_N sig))%R) by (apply IZR_le; exact Hz).
   assert (HB : (1 <= IZR (10 ^ (- e)))%R) by (apply IZR_le; exact Hp).
   assert (Hu : (0 <= u < 1)%R) by (rewrite u_val; lra).
-  pose proof (near_div _ _ _ _ _ _ ltac:(lra) ltac:(lra) ltac:(lra) Hu (near_RNE_int _ Hz) (near_RNE_int _ Hp)) as Hy.
+  assert (HA0 : (0 <= IZR (Z.of_N sig))%R) by lra. assert (HB0 : (0 < IZR (10 ^ (- e)))%R) by lra.
+  pose proof (near_div _ _ _ _ _ _ HA0 HB0 (proj1 Hu) Hu (near_RNE_int _ Hz) (near_RNE_int _ Hp)) as Hy.
   set (v := (IZR (Z.of_N sig) / IZR (10 ^ (- e)))%R) in *.
   assert (Hv : (0 <= v)%R). { unfold v. apply Rlt_le, Rdiv_lt_0_compat; lra. }
   set (y := (RNE64 (IZR (Z.of_N sig)) / RNE64 (IZR (10 ^ (- e))))%R) in *.
@@ -295,7 +301,7 @@ Proof.
   pose proof (RNE64_abs_err y) as Hr.
   assert (Hlo : (0 <= 1 - (u + u) / (1 - u))%R) by (rewrite u_val; lra).
   assert (Hypos : (0 <= y)%R) by (apply Rle_trans with (2 := Hylo); apply Rmult_le_pos; assumption).
-  rewrite Rabs_pos_eq in Hr by exact Hypos.
+  rewrite (Rabs_pos_eq y) in Hr by exact Hypos.
   replace (RNE64 y - v)%R with ((RNE64 y - y) + (y - v))%R by ring.
   apply Rle_trans with (1 := Rabs_triang _ _).
   assert (Hc : (u * (1 + (u + u) / (1 - u)) + (u + u) / (1 - u) <= K3)%R) by (unfold K3; rewrite u_val; lra).
@@ -303,3 +309,322 @@ Proof.
   assert ((u * (1 + (u + u) / (1 - u)) + (u + u) / (1 - u)) * v <= K3 * v)%R by (apply Rmult_le_compat_r; assumption).
   lra.
 Qed.
+
+(* band U: five roundings (sig, 1e308, quotient, 10^j, quotient), all normal when v >= 2^-1021 *)
+Theorem C08_err_U : forall sig e f, (0 < sig)%N -> (sig <= u64_max)%N -> -616 <= e < -308 ->
+  f64_loop 4 (b64_of_Z (Z.of_N sig)) e = Ok (Some f) ->
+  (bpow radix2 (-1021) <= exact_val sig e)%R ->
+  (Rabs (B2R f - exact_val sig e) <= K5 * exact_val sig e)%R.
+Proof.
+  intros sig e f Hpos Hsig He Hl Hnorm.
+  destruct (loop_band_U sig e Hsig He) as (f' & Hl' & HR). rewrite Hl in Hl'. injection Hl' as <-.
+  rewrite HR. rewrite exact_val_neg_e in * by lia.
+  set (j := - e - 308) in *.
+  assert (Hz : 1 <= Z.of_N sig) by lia.
+  pose proof (pow10_ge1 308 ltac:(lia)) as Hp1. pose proof (pow10_ge1 j ltac:(lia)) as Hp2.
+  assert (HA : (1 <= IZR (Z.of_N sig))%R) by (apply IZR_le; exact Hz).
+  assert (HB1 : (1 <= IZR (10 ^ 308))%R) by (apply IZR_le; exact Hp1).
+  assert (HB2 : (1 <= IZR (10 ^ j))%R) by (apply IZR_le; exact Hp2).
+  assert (Hsplit : IZR (10 ^ (- e)) = (IZR (10 ^ 308) * IZR (10 ^ j))%R).
+  { replace (- e) with (308 + j) by lia. rewrite Z.pow_add_r by lia. apply mult_IZR. }
+  set (A := IZR (Z.of_N sig)) in *. set (B1 := IZR (10 ^ 308)) in *. set (B2 := IZR (10 ^ j)) in *.
+  assert (Hv : (A / IZR (10 ^ (- e)) = A / B1 / B2)%R) by (rewrite Hsplit; field; lra).
+  rewrite Hv in *. set (s := (A / B1)%R) in *.
+  assert (Hs : (0 < s)%R) by (apply Rdiv_lt_0_compat; lra).
+  assert (Hsv : (s / B2 <= s)%R).
+  { unfold Rdiv. rewrite <- (Rmult_1_r s) at 2. apply Rmult_le_compat_l; [lra|].
+    rewrite <- Rinv_1. apply Rinv_le_contravar; lra. }
+  assert (Hu : (0 <= u < 1)%R) by (rewrite u_val; lra).
+  assert (Hb : (bpow radix2 (-1021) = 2 * bpow radix2 (-1022))%R).
+  { change (-1021) with (1 + -1022). rewrite bpow_plus. reflexivity. }
+  assert (HA0 : (0 <= A)%R) by lra. assert (HB10 : (0 < B1)%R) by lra. assert (HB20 : (0 < B2)%R) by lra.
+  (* first quotient *)
+  pose proof (near_div _ _ _ _ _ _ HA0 HB10 (proj1 Hu) Hu (near_RNE_int _ Hz) (near_RNE_int _ Hp1)) as Hy1.
+  fold A B1 s in Hy1.
+  set (k1 := ((u + u) / (1 - u))%R) in *.
+  assert (Hk1 : (0 <= k1 <= / 4)%R) by (unfold k1; rewrite u_val; lra).
+  pose proof (near_bounds _ _ _ Hy1) as [Hy1lo _].
+  assert (Hn1 : (bpow radix2 (-1022) <= Rabs (RNE64 A / RNE64 B1))%R).
+  { assert ((1 - k1) * s >= / 2 * s)%R by nra. rewrite Rabs_pos_eq; lra. }
+  pose proof (near_rnd _ _ _ (proj1 Hk1) (Rlt_le _ _ Hs) Hy1 Hn1) as Hf1.
+  set (k2 := (k1 + u * (1 + k1))%R) in *.
+  assert (Hk2 : (0 <= k2 <= / 4)%R) by (unfold k2, k1; rewrite u_val; lra).
+  (* second quotient *)
+  pose proof (near_div _ _ _ _ _ _ (Rlt_le _ _ Hs) HB20 (proj1 Hk2) Hu Hf1 (near_RNE_int _ Hp2)) as Hy2.
+  fold B2 in Hy2.
+  set (k3 := ((k2 + u) / (1 - u))%R) in *.
+  assert (Hk3 : (0 <= k3 <= / 4)%R) by (unfold k3, k2, k1; rewrite u_val; lra).
+  assert (Hv0 : (0 <= s / B2)%R) by (pose proof (bpow_gt_0 radix2 (-1021)); lra).
+  pose proof (near_bounds _ _ _ Hy2) as [Hy2lo _].
+  assert (Hn2 : (bpow radix2 (-1022) <= Rabs (RNE64 (RNE64 A / RNE64 B1) / RNE64 B2))%R).
+  { assert ((1 - k3) * (s / B2) >= / 2 * (s / B2))%R by nra. rewrite Rabs_pos_eq; lra. }
+  pose proof (near_rnd _ _ _ (proj1 Hk3) Hv0 Hy2 Hn2) as Hf.
+  apply (near_weaken _ K5) in Hf; [exact Hf| |exact Hv0].
+  unfold K5, k3, k2, k1. rewrite u_val. lra.
+Qed.
+
+(* ------------------------------------------------------------------ *)
+(** * D. overflow: rejected only near / beyond the threshold, always when beyond by the tolerance *)
+
+Lemma four_u : bpow radix2 (-51) = (4 * u)%R.
+Proof. unfold u. change (-51) with (2 + -53). rewrite bpow_plus. reflexivity. Qed.
+
+Lemma max_float_val : (IZR (2 ^ 53 - 1) * bpow radix2 971 = (1 - u) * bpow radix2 1024)%R.
+Proof.
+  rewrite minus_IZR, <- bpow_IZR by lia. unfold u.
+  change 1024 with (53 + 971). rewrite (bpow_plus radix2 53 971).
+  assert (H : (bpow radix2 (-53) * bpow radix2 53 = 1)%R) by (rewrite <- bpow_plus; reflexivity).
+  replace ((1 - bpow radix2 (-53)) * (bpow radix2 53 * bpow radix2 971))%R
+    with (bpow radix2 53 * bpow radix2 971 - (bpow radix2 (-53) * bpow radix2 53) * bpow radix2 971)%R by ring.
+  rewrite H. ring.
+Qed.
+
+Lemma pow10_309_big : (bpow radix2 1024 <= IZR (10 ^ 309))%R.
+Proof. rewrite bpow_IZR by lia. apply IZR_le. apply Z.leb_le. vm_compute. reflexivity. Qed.
+
+Theorem C08_reject_only_near_overflow : forall sig e, (0 < sig)%N -> (sig <= u64_max)%N ->
+  f64_loop 4 (b64_of_Z (Z.of_N sig)) e = Ok None ->
+  (bpow radix2 1024 * (1 - bpow radix2 (-51)) < exact_val sig e)%R.
+Proof.
+  intros sig e Hpos Hsig Hl.
+  assert (Hz : 1 <= Z.of_N sig) by lia.
+  assert (HA : (1 <= IZR (Z.of_N sig))%R) by (apply IZR_le; exact Hz).
+  pose proof (bpow_gt_0 radix2 1024) as HT.
+  destruct (Z_lt_le_dec e 0) as [Hneg|Hnn].
+  { exfalso. destruct (Z_le_gt_dec e (-617)) as [H1|H1].
+    - destruct (f64_loop_underflow_zero_617 sig e Hsig H1) as (z & Hz' & _). congruence.
+    - destruct (Z_lt_le_dec e (-308)) as [H2|H2].
+      + destruct (loop_band_U sig e Hsig ltac:(lia)) as (z & Hz' & _). congruence.
+      + destruct (loop_band_Tneg sig e Hsig ltac:(lia)) as (z & Hz' & _). congruence. }
+  rewrite exact_val_nonneg_e by lia. rewrite four_u.
+  destruct (Z_le_gt_dec e 308) as [Hle|Hgt].
+  - destruct (loop_band_Tpos sig e Hsig ltac:(lia)) as [(_ & f' & Hl' & _)|(Hge & _)]; [congruence|].
+    pose proof (pow10_ge1 e Hnn) as Hp.
+    assert (HB : (1 <= IZR (10 ^ e))%R) by (apply IZR_le; exact Hp).
+    assert (HA0 : (0 <= IZR (Z.of_N sig))%R) by lra. assert (HB0 : (0 <= IZR (10 ^ e))%R) by lra.
+    pose proof (near_mul _ _ _ _ _ _ HA0 HB0 (near_RNE_int _ Hz) (near_RNE_int _ Hp)) as Hy.
+    apply near_bounds in Hy. destruct Hy as [_ Hyhi].
+    pose proof (RNE_int_ge1 _ Hz) as H1. pose proof (RNE_int_ge1 _ Hp) as H2.
+    set (y := (RNE64 (IZR (Z.of_N sig)) * RNE64 (IZR (10 ^ e)))%R) in *.
+    assert (Hy0 : (0 <= y)%R) by (unfold y; nra).
+    rewrite Rabs_pos_eq in Hge by (apply RNE64_nonneg; exact Hy0).
+    assert (Hymax : (IZR (2 ^ 53 - 1) * bpow radix2 971 < y)%R).
+    { apply Rnot_le_lt. intros Hc. apply (RNE64_le_generic _ _ max_float_format) in Hc.
+      pose proof max_float_lt. lra. }
+    rewrite max_float_val in Hymax.
+    set (v := (IZR (Z.of_N sig) * IZR (10 ^ e))%R) in *. set (T := bpow radix2 1024) in *.
+    rewrite u_val in *. lra.
+  - assert (Hbig : (IZR (10 ^ 309) <= IZR (10 ^ e))%R) by (apply IZR_le, Z.pow_le_mono_r; lia).
+    pose proof pow10_309_big as H309. assert (Hu : (0 < u)%R) by apply bpow_gt_0.
+    apply Rlt_le_trans with (bpow radix2 1024); [nra|].
+    apply Rle_trans with (1 * IZR (10 ^ e))%R; [lra|]. apply Rmult_le_compat_r; lra.
+Qed.
+
+Theorem C08_reject_if_beyond : forall sig e, (0 < sig)%N -> (sig <= u64_max)%N ->
+  (bpow radix2 1024 * (1 + bpow radix2 (-51)) <= exact_val sig e)%R ->
+  f64_loop 4 (b64_of_Z (Z.of_N sig)) e = Ok None.
+Proof.
+  intros sig e Hpos Hsig Hv.
+  assert (Hz : 1 <= Z.of_N sig) by lia.
+  assert (HA : (1 <= IZR (Z.of_N sig))%R) by (apply IZR_le; exact Hz).
+  pose proof (bpow_gt_0 radix2 1024) as HT. rewrite four_u in Hv.
+  assert (Hu : (0 < u)%R) by apply bpow_gt_0.
+  destruct (Z_lt_le_dec e 0) as [Hneg|Hnn].
+  { exfalso. rewrite exact_val_neg_e in Hv by lia.
+    pose proof (pow10_ge1 (- e) ltac:(lia)) as Hp.
+    assert (HB : (1 <= IZR (10 ^ (- e)))%R) by (apply IZR_le; exact Hp).
+    assert (Hle : (IZR (Z.of_N sig) / IZR (10 ^ (- e)) <= IZR (Z.of_N sig))%R).
+    { unfold Rdiv. rewrite <- (Rmult_1_r (IZR (Z.of_N sig))) at 2. apply Rmult_le_compat_l; [lra|].
+      rewrite <- Rinv_1. apply Rinv_le_contravar; lra. }
+    assert (Hs64 : (IZR (Z.of_N sig) <= bpow radix2 64)%R).
+    { rewrite bpow_IZR by lia. apply IZR_le. change u64_max with (Z.to_N (2 ^ 64 - 1)) in Hsig. lia. }
+    assert (bpow radix2 64 < bpow radix2 1024)%R by (apply bpow_lt; lia). nra. }
+  destruct (Z_le_gt_dec e 308) as [Hle|Hgt]; [|apply f64_loop_overflow_rejects; [exact Hpos|exact Hsig|lia]].
+  rewrite exact_val_nonneg_e in Hv by lia.
+  destruct (loop_band_Tpos sig e Hsig ltac:(lia)) as [(Hlt & _)|(_ & Hl)]; [exfalso|exact Hl].
+  pose proof (pow10_ge1 e Hnn) as Hp.
+  assert (HB : (1 <= IZR (10 ^ e))%R) by (apply IZR_le; exact Hp).
+  assert (HA0 : (0 <= IZR (Z.of_N sig))%R) by lra. assert (HB0 : (0 <= IZR (10 ^ e))%R) by lra.
+  pose proof (near_mul _ _ _ _ _ _ HA0 HB0 (near_RNE_int _ Hz) (near_RNE_int _ Hp)) as Hy.
+  apply near_bounds in Hy. destruct Hy as [Hylo _].
+  set (y := (RNE64 (IZR (Z.of_N sig)) * RNE64 (IZR (10 ^ e)))%R) in *.
+  assert (HyT : (bpow radix2 1024 <= y)%R).
+  { set (v := (IZR (Z.of_N sig) * IZR (10 ^ e))%R) in *. set (T := bpow radix2 1024) in *.
+    rewrite u_val in *. lra. }
+  apply (RNE64_ge_generic _ _ (format_bpow64 1024 ltac:(lia))) in HyT.
+  rewrite Rabs_pos_eq in Hlt by lra. lra.
+Qed.
+
+(* "always rejected if beyond the threshold" is FALSE without the tolerance:
+   1.79769313486231599e308 = 179769313486231599e291 >= 2^1024 (beyond f64::MAX + half an ulp, the exact value
+   is not representable: a correctly rounding parser overflows) but the default build returns f64::MAX. *)
+Example accepted_beyond_threshold :
+  (2 ^ 1024 <= 179769313486231599 * 10 ^ 291) /\
+  b64_is_inf (rne_decimal 179769313486231599 291) = true /\
+  option_map bits_of_b64 (match f64_loop 4 (b64_of_Z 179769313486231599) 291 with Ok o => o | _ => None end)
+  = Some 9218868437227405311%N (* 0x7FEFFFFFFFFFFFFF = f64::MAX *).
+Proof. split; [apply Z.leb_le; vm_compute; reflexivity|]. split; vm_compute; reflexivity. Qed.
+
+(* ------------------------------------------------------------------ *)
+(** * E. underflow: values at most 2^-1076 (half the rounding boundary of the smallest subnormal) give zero *)
+
+Theorem C08_underflow_zero : forall sig e, (sig <= u64_max)%N ->
+  (exact_val sig e <= bpow radix2 (-1076))%R ->
+  exists z, f64_loop 4 (b64_of_Z (Z.of_N sig)) e = Ok (Some z) /\ B2R z = 0%R.
+Proof.
+  intros sig e Hsig Hv.
+  destruct (N.eq_dec sig 0) as [->|Hnz]; [apply f64_loop_zero|].
+  assert (Hz : 1 <= Z.of_N sig) by lia.
+  assert (HA : (1 <= IZR (Z.of_N sig))%R) by (apply IZR_le; exact Hz).
+  destruct (Z_le_gt_dec e (-617)) as [H1|H1]; [apply f64_loop_underflow_zero_617; assumption|].
+  pose proof (bpow_gt_0 radix2 (-1076)) as Hpos76.
+  assert (Hsmall : (bpow radix2 (-1076) < / IZR (10 ^ 308))%R).
+  { change (-1076) with (- (1076)). rewrite bpow_opp, bpow_IZR by lia.
+    apply Rinv_lt_contravar; [apply Rmult_lt_0_compat; apply IZR_lt; reflexivity|].
+    apply IZR_lt. apply Z.ltb_lt. vm_compute. reflexivity. }
+  destruct (Z_lt_le_dec e (-308)) as [H2|H2].
+  2:{ exfalso. destruct (Z_lt_le_dec e 0) as [H3|H3].
+      - rewrite exact_val_neg_e in Hv by lia.
+        pose proof (pow10_ge1 (- e) ltac:(lia)) as Hp.
+        assert (Hle : (IZR (10 ^ (- e)) <= IZR (10 ^ 308))%R) by (apply IZR_le, Z.pow_le_mono_r; lia).
+        assert (HB : (1 <= IZR (10 ^ (- e)))%R) by (apply IZR_le; exact Hp).
+        assert (Hinv : (/ IZR (10 ^ 308) <= / IZR (10 ^ (- e)))%R) by (apply Rinv_le_contravar; lra).
+        assert (0 < / IZR (10 ^ (- e)))%R by (apply Rinv_0_lt_compat; lra).
+        unfold Rdiv in Hv. nra.
+      - rewrite exact_val_nonneg_e in Hv by lia.
+        pose proof (pow10_ge1 e H3) as Hp. assert (HB : (1 <= IZR (10 ^ e))%R) by (apply IZR_le; exact Hp).
+        assert (bpow radix2 (-1076) < 1)%R by (change 1%R with (bpow radix2 0); apply bpow_lt; lia). nra. }
+  (* band U *)
+  destruct (loop_band_U sig e Hsig ltac:(lia)) as (f & Hl & HR).
+  exists f. split; [exact Hl|]. rewrite HR. apply RNE64_tiny.
+  rewrite exact_val_neg_e in Hv by lia.
+  set (j := - e - 308) in *.
+  pose proof (pow10_ge1 308 ltac:(lia)) as Hp1.
+  assert (Hp2 : 10 <= 10 ^ j). { change 10 with (10 ^ 1) at 1. apply Z.pow_le_mono_r; lia. }
+  assert (HB1 : (1 <= IZR (10 ^ 308))%R) by (apply IZR_le; exact Hp1).
+  assert (HB2 : (10 <= IZR (10 ^ j))%R) by (apply IZR_le; exact Hp2).
+  assert (Hsplit : IZR (10 ^ (- e)) = (IZR (10 ^ 308) * IZR (10 ^ j))%R).
+  { replace (- e) with (308 + j) by lia. rewrite Z.pow_add_r by lia. apply mult_IZR. }
+  set (A := IZR (Z.of_N sig)) in *. set (B1 := IZR (10 ^ 308)) in *. set (B2 := IZR (10 ^ j)) in *.
+  assert (Hveq : (A / IZR (10 ^ (- e)) = A / B1 * / B2)%R) by (rewrite Hsplit; field; lra).
+  rewrite Hveq in Hv. set (s := (A / B1)%R) in *. set (w := (/ B2)%R) in *.
+  assert (Hs : (0 < s)%R) by (apply Rdiv_lt_0_compat; lra).
+  assert (Hw : (0 < w <= / 10)%R).
+  { unfold w. split; [apply Rinv_0_lt_compat; lra|apply Rinv_le_contravar; lra]. }
+  assert (Hu : (0 <= u < 1)%R) by (rewrite u_val; lra).
+  assert (HA0 : (0 <= A)%R) by lra. assert (HB10 : (0 < B1)%R) by lra.
+  pose proof (near_div _ _ _ _ _ _ HA0 HB10 (proj1 Hu) Hu (near_RNE_int _ Hz) (near_RNE_int _ Hp1)) as Hy1.
+  fold A B1 s in Hy1. set (k1 := ((u + u) / (1 - u))%R) in *.
+  assert (Hk1 : (0 <= k1 <= / 1000000)%R) by (unfold k1; rewrite u_val; lra).
+  pose proof (near_bounds _ _ _ Hy1) as [Hy1lo Hy1hi].
+  set (y1 := (RNE64 A / RNE64 B1)%R) in *.
+  assert (Hy1pos : (0 <= y1)%R) by nra.
+  pose proof (RNE64_abs_err y1) as Hr1. rewrite (Rabs_pos_eq y1) in Hr1 by exact Hy1pos.
+  apply Rabs_le_inv in Hr1.
+  pose proof (RNE64_nonneg y1 Hy1pos) as Hf1pos.
+  set (f1 := RNE64 y1) in *.
+  assert (Hf1hi : (f1 <= (1 + u) * (1 + k1) * s + eta)%R).
+  { assert (u * y1 <= u * ((1 + k1) * s))%R by (apply Rmult_le_compat_l; lra). lra. }
+  (* divisor *)
+  assert (Hp2' : 1 <= 10 ^ j) by lia.
+  pose proof (near_bounds _ _ _ (near_RNE_int _ Hp2')) as [Hp2lo _]. fold B2 in Hp2lo.
+  set (p2 := RNE64 B2) in *.
+  assert (Hp2pos : (0 < (1 - u) * B2)%R) by (apply Rmult_lt_0_compat; lra).
+  assert (Hinv : (/ p2 <= w * / (1 - u))%R).
+  { unfold w. rewrite <- Rinv_mult, (Rmult_comm B2). apply Rinv_le_contravar; [exact Hp2pos|exact Hp2lo]. }
+  assert (Hinvpos : (0 < / p2)%R) by (apply Rinv_0_lt_compat; lra).
+  assert (Hy2 : (f1 / p2 <= ((1 + u) * (1 + k1) * s + eta) * (w * / (1 - u)))%R).
+  { unfold Rdiv. apply Rmult_le_compat; lra. }
+  assert (Heta : (0 < eta)%R) by apply bpow_gt_0.
+  assert (Heq : (((1 + u) * (1 + k1) * s + eta) * (w * / (1 - u))
+                 = ((1 + u) * (1 + k1) * (s * w) + eta * w) * / (1 - u))%R) by ring.
+  rewrite Heq in Hy2.
+  assert (Hetaw : (eta * w <= eta * / 10)%R) by (apply Rmult_le_compat_l; lra).
+  assert (Heta2 : (bpow radix2 (-1076) = eta / 2)%R).
+  { unfold eta. change (-1075) with (1 + -1076). rewrite bpow_plus. change (bpow radix2 1) with 2%R. field. }
+  rewrite Heta2 in Hv.
+  assert (Hc : ((1 + u) * (1 + k1) <= 11 / 10)%R) by (rewrite u_val in *; nra).
+  assert (Hsw : (0 <= s * w)%R) by (apply Rmult_le_pos; lra).
+  assert (Hcv : ((1 + u) * (1 + k1) * (s * w) <= 11 / 10 * (eta / 2))%R).
+  { apply Rmult_le_compat; try lra. nra. }
+  assert (Hi1 : (/ (1 - u) <= 101 / 100)%R) by (rewrite u_val; lra).
+  assert (Hi0 : (0 < / (1 - u))%R) by (apply Rinv_0_lt_compat; lra).
+  assert (Hfin : (((1 + u) * (1 + k1) * (s * w) + eta * w) * / (1 - u) <= (11 / 10 * (eta / 2) + eta * / 10) * (101 / 100))%R).
+  { apply Rmult_le_compat; try lra. apply Rplus_le_le_0_compat; [apply Rmult_le_pos; [nra|exact Hsw]|nra]. }
+  assert (Hy2pos : (0 <= f1 / p2)%R) by (unfold Rdiv; apply Rmult_le_pos; lra).
+  rewrite Rabs_pos_eq by exact Hy2pos. fold eta. lra.
+Qed.
+
+(* ------------------------------------------------------------------ *)
+(** * F. summary in ulps *)
+
+Lemma u_le_ulp (v : R) : v <> 0%R -> (u * Rabs v <= ulp radix2 fexp64 v)%R.
+Proof.
+  intros Hv. rewrite ulp_neq_0 by exact Hv. unfold cexp.
+  apply Rle_trans with (bpow radix2 (mag radix2 v - 53)).
+  - unfold Z.sub. rewrite bpow_plus. fold u. rewrite Rmult_comm.
+    apply Rmult_le_compat_r; [apply bpow_ge_0|]. left. apply bpow_mag_gt.
+  - apply bpow_le. unfold FLT_exp. lia.
+Qed.
+
+Lemma rel_to_ulp (c f v : R) : (0 < v)%R -> (0 <= c)%R -> (Rabs (f - v) <= c * u * v)%R ->
+  (Rabs (f - RNE64 v) <= (c + / 2) * ulp radix2 fexp64 v)%R.
+Proof.
+  intros Hv Hc H.
+  pose proof (u_le_ulp v ltac:(lra)) as Hu. rewrite Rabs_pos_eq in Hu by lra.
+  pose proof (error_le_half_ulp radix2 fexp64 (fun z => negb (Z.even z)) v) as He. fold (RNE64 v) in He.
+  replace (f - RNE64 v)%R with ((f - v) + - (RNE64 v - v))%R by ring.
+  apply Rle_trans with (1 := Rabs_triang _ _). rewrite Rabs_Ropp.
+  assert (c * (u * v) <= c * ulp radix2 fexp64 v)%R by (apply Rmult_le_compat_l; assumption).
+  lra.
+Qed.
+
+(* The general bound.  Bands covered: every exponent for which a float is returned, provided the exact value
+   v = sig * 10^e is at least 2^-1021 (twice the smallest normal number).
+   NOT covered: results in or next to the subnormal range (see C08_err_Tneg_abs for band T-, C08_underflow_zero). *)
+Theorem C08_ulp_partial : forall sig e f, (0 < sig)%N -> (sig <= u64_max)%N ->
+  f64_loop 4 (b64_of_Z (Z.of_N sig)) e = Ok (Some f) ->
+  (bpow radix2 (-1021) <= exact_val sig e)%R ->
+  let v := exact_val sig e in
+  let c := if (-308 <=? e) then (3 + / 1099511627776)%R else (5 + / 1099511627776)%R in
+  (Rabs (B2R f - v) <= c * u * v)%R /\
+  (Rabs (B2R f - RNE64 v) <= (c + / 2) * ulp radix2 fexp64 v)%R.
+Proof.
+  intros sig e f Hpos Hsig Hl Hnorm v c.
+  pose proof (exact_val_pos sig e Hpos) as Hvpos. fold v in Hvpos, Hnorm.
+  assert (Hrel : (Rabs (B2R f - v) <= c * u * v)%R).
+  { unfold c, v. destruct (Z.leb_spec (-308) e) as [Hge|Hlt].
+    - destruct (Z_lt_le_dec e 0) as [Hneg|Hnn].
+      + apply (C08_err_Tneg sig e f Hpos Hsig ltac:(lia) Hl Hnorm).
+      + destruct (Z_le_gt_dec e 308) as [Hle|Hgt].
+        * apply (C08_err_Tpos sig e f Hpos Hsig ltac:(lia) Hl).
+        * rewrite f64_loop_overflow_rejects in Hl by (try assumption; lia). discriminate Hl.
+    - destruct (Z_le_gt_dec e (-617)) as [H1|H1].
+      + exfalso. unfold v in Hnorm. rewrite exact_val_neg_e in Hnorm by lia.
+        assert (Hs64 : (IZR (Z.of_N sig) <= bpow radix2 64)%R).
+        { rewrite bpow_IZR by lia. apply IZR_le. change u64_max with (Z.to_N (2 ^ 64 - 1)) in Hsig. lia. }
+        assert (Hd : (bpow radix2 1086 <= IZR (10 ^ (- e)))%R).
+        { rewrite bpow_IZR by lia. apply IZR_le. apply Z.le_trans with (10 ^ 617); [|apply Z.pow_le_mono_r; lia].
+          apply Z.leb_le. vm_compute. reflexivity. }
+        pose proof (bpow_gt_0 radix2 1086) as H86. pose proof (bpow_gt_0 radix2 64) as H64.
+        assert (Hq : (IZR (Z.of_N sig) / IZR (10 ^ (- e)) <= bpow radix2 64 * / bpow radix2 1086)%R).
+        { unfold Rdiv. apply Rmult_le_compat; [apply IZR_le; lia|left; apply Rinv_0_lt_compat; lra|exact Hs64|].
+          apply Rinv_le_contravar; lra. }
+        rewrite <- bpow_opp, <- bpow_plus in Hq.
+        assert (bpow radix2 (64 + - (1086)) < bpow radix2 (-1021))%R by (apply bpow_lt; lia). lra.
+      + apply (C08_err_U sig e f Hpos Hsig ltac:(lia) Hl Hnorm). }
+  split; [exact Hrel|].
+  apply rel_to_ulp; [exact Hvpos| |exact Hrel].
+  unfold c. destruct (-308 <=? e); lra.
+Qed.
+
+Print Assumptions f64_loop_underflow_zero_617.
+Print Assumptions C08_err_Tpos.
+Print Assumptions C08_err_Tneg.
+Print Assumptions C08_err_Tneg_abs.
+Print Assumptions C08_err_U.
+Print Assumptions C08_reject_only_near_overflow.
+Print Assumptions C08_reject_if_beyond.
+Print Assumptions accepted_beyond_threshold.
+Print Assumptions C08_underflow_zero.
+Print Assumptions C08_ulp_partial.
